@@ -19,6 +19,10 @@ type nwTree struct {
 	Code  []int    `json:"preorder_child_counts"`
 	Names []core.S `json:"names"`
 	Dists []string `json:"distances"`
+	// Memory: how the Children slices are laid out: "" (nil for leaves, exact slices), "empty-leaves"
+	// (leaves hold []*Node{}), "empty-leaves-with-capacity" (make([]*Node, 0, 4), what pruning with
+	// kids[:0] leaves behind), "spare-capacity" (every Children slice has 3 unused slots holding stale nodes)
+	Memory string `json:"children_slices,omitempty"`
 }
 
 func (t nwTree) build() *newick.Node {
@@ -26,6 +30,21 @@ func (t nwTree) build() *newick.Node {
 	for i, n := range nodes {
 		n.Name = string(t.Names[i])
 		n.Distance = parseF(t.Dists[i])
+		switch t.Memory {
+		case "empty-leaves":
+			if len(n.Children) == 0 {
+				n.Children = []*newick.Node{}
+			}
+		case "empty-leaves-with-capacity":
+			if len(n.Children) == 0 {
+				n.Children = append(make([]*newick.Node, 0, 4), &newick.Node{Name: "pruned"})[:0]
+			}
+		case "spare-capacity":
+			k := len(n.Children)
+			c := append(make([]*newick.Node, 0, k+3), n.Children...)
+			c = append(c, &newick.Node{Name: "stale1"}, &newick.Node{Name: "stale2", Children: []*newick.Node{{Name: "stale3"}}})
+			n.Children = c[:k]
+		}
 	}
 	return root
 }
@@ -199,6 +218,47 @@ func runC05(r *core.Run) {
 				}
 			}
 			return core.Outcome{Class: fmt.Sprint("nodes=", len(t.Code), " dev=", nd), Nontrivial: nd > 0, Evals: 3}
+		})
+
+	r.Bound("memory-shapes", fmt.Sprintf("every ordered tree with 1..%d nodes x 3 layouts of the Children slices (leaves holding an empty non-nil slice; leaves holding an emptied slice with capacity and a stale node behind it; every slice with spare capacity holding stale nodes) x {default names, one quoted name, one distance}", N))
+	core.Clause(r, "memory-shapes-of-the-tree", core.Opts{Rule: "a node is a leaf iff it has no children, however its Children slice is laid out in memory (nil, empty, emptied with capacity), and only the first len(Children) entries are children: the tree is written and read back exactly like the same tree built with nil leaves and exact slices; non-trivial = all"},
+		func(emit func(nwTree) bool) {
+			enum.TreesUpTo(N, func(code []int) bool {
+				for _, mem := range []string{"empty-leaves", "empty-leaves-with-capacity", "spare-capacity"} {
+					for v := 0; v < 3; v++ {
+						tr := defaultNwTree(code)
+						tr.Memory = mem
+						last := len(code) - 1
+						if v == 1 {
+							tr.Names[last] = "a b"
+						}
+						if v == 2 {
+							tr.Dists[last] = "0.5"
+						}
+						if !emit(tr) {
+							return false
+						}
+					}
+				}
+				return true
+			})
+		},
+		func(t nwTree) core.Outcome {
+			plain := t
+			plain.Memory = ""
+			if renderNewick(plain.build()) != renderNewick(t.build()) {
+				return core.Failf("HARNESS: the memory layout %q changed the tree itself", t.Memory)
+			}
+			if out := checkNewickRoundTrip(t); out.Fail != "" {
+				out.Fail = "Children slices laid out as " + t.Memory + ": " + out.Fail
+				return out
+			}
+			d1, _ := writeNewickChecked(plain.build())
+			d2, _ := writeNewickChecked(t.build())
+			if !bytes.Equal(d1, d2) {
+				return core.Failf("Children slices laid out as %s: written as %q, the same tree with nil leaves and exact slices as %q", t.Memory, trunc(string(d2), 200), trunc(string(d1), 200))
+			}
+			return core.Outcome{Class: t.Memory, Nontrivial: true, Evals: 4}
 		})
 
 	core.Clause(r, "all-names-small", core.Opts{Rule: "every assignment of menu names to every node of every tree with <= 3 nodes (distance 0 and one non-zero distance variant); non-trivial = all"},
